@@ -58,6 +58,9 @@ type FuncContract struct {
 	Pos        string
 	Assumed    bool // from /verif/assumed (external)
 	Used       bool
+	VerifyImpls bool     // interface contract: module implementations are verified against it
+	Aliases    []string // positional parameter names (receiver first) when inherited by an implementation
+	IfaceKey   string
 }
 
 type PkgDecl struct {
@@ -80,7 +83,7 @@ var clauseKeywords = map[string]bool{
 	"modifies": true, "invariant": true, "nopanic": true, "trusted": true, "pure": true,
 	"specfn": true, "let": true, "assume": true, "typeinv": true, "protect": true,
 	"monotone": true, "results": true, "assert": true, "package": true, "sweep": true,
-	"axiom": true, "ghostfield": true, "lemma": true, "ghost": true, "frame": true, "end": true,
+	"axiom": true, "ghostfield": true, "lemma": true, "impls": true, "ghost": true, "frame": true, "end": true,
 }
 
 var labelRe = regexp.MustCompile(`^([A-Za-z_][A-Za-z0-9_\-]*):\s+(.*)$`)
@@ -178,6 +181,8 @@ func parseContractFile(path string, pkgPath string, assumed bool, cs *Contracts)
 				cur.NoPanic = true
 			case "sweep":
 				cur.Sweep = true
+			case "impls":
+				cur.VerifyImpls = true
 			case "pure":
 				cur.Pure = true
 				cur.HasMod = true
